@@ -43,7 +43,8 @@ def traced_builds(ctx, sources, configs, procs=6):
             tr = ctx.path("traces", tag + ".ndjson")
             font = ctx.path("fonts", tag + ".ttf")
             reqs.append(dict(tag=tag, src=source_path(rel), out=font, threads=threads, trace=tr, jitter=jitter,
-                             flags=[f for f in flags if f != "skip_features"],
+                             flags=[f for f in flags if f != "skip_features" and not f.startswith("!")],
+                             no_flags=[f[1:] for f in flags if f.startswith("!")],
                              skip_features="skip_features" in flags))
             meta.append((rel, tuple(flags), (threads, jitter), tr, font))
     # tracing installs a process-global sink: one request at a time per process, several processes
@@ -125,6 +126,17 @@ def scheduler_minifonts(ctx):
         g["d"]["layers"][m] = {"width": 500, "components": [{"base": "c"}, {"base": "a"}]}
     mf["skip_export"] = ["b", ".notdef"]
     emit("non-export-chain", mf, ((), ("flatten",)))
+    # 2b. a source with its own .notdef and mixed contour+component glyphs, also built with prefer-simple-glyphs
+    #     off: GlyphOrder then hoists the contours into derived glyphs (barbar.0) whose BE jobs only exist
+    #     after its completion message was handled
+    mf = minifont.template_wght((".notdef", "bar", "barbar", "plus", "mixed2"))
+    g = {x["name"]: x for x in mf["glyphs"]}
+    for m in ("Regular", "Bold"):
+        g["barbar"]["layers"][m] = {"width": 600, "contours": [minifont.square(300, 0, 360, 700)],
+                                    "components": [{"base": "bar"}]}
+        g["mixed2"]["layers"][m] = {"width": 700, "contours": [minifont.square(10, 10, 60, 60)],
+                                    "components": [{"base": "plus", "xform": [1, 0, 0, 1, 80, 0]}, {"base": "barbar"}]}
+    emit("own-notdef-mixed-glyphs", mf, ((), ("!prefer_simple",), ("!prefer_simple", "flatten")))
     # 3. kerning only in the non-default master; groups only in one
     mf = minifont.template_wght(("a", "b", "c"))
     mf["masters"][1]["kerning"] = {"a": {"b": -30}, "public.kern1.x": {"c": 10}}
